@@ -98,9 +98,22 @@ def gen_stream(rng, native):
     """-> list of rows (lists). Blocks are separated by a blank row, or by nothing at all."""
     rows = []
     kinds = []
-    if rng.random() < 0.5:
+    r0 = rng.random()
+    if r0 < 0.3:
         rows += [["author:", "x"], ["date:", "2020"]][: rng.randint(1, 2)]
         kinds.append("metadata")
+    elif r0 < 0.6:
+        # leading rows that make a METADATA block WITHOUT entries (a falsy MetadataBlock): free-text title lines,
+        # `key:` cells without a value cell, rows with two cells but no colon, rows starting with a number
+        pool = [["Wind farm layout - by hand"], ["key:"], ["note", "x"], ["title "], ["a:b", "v"], ["author :x", "y"]]
+        if native:
+            pool += [[5, "x"], [2.5], ["key:", None][:1], [True, "author:"]]
+        rows += [list(rng.choice(pool)) for _ in range(rng.randint(1, 3))]
+        kinds.append("metadata-empty")
+    elif r0 < 0.7:
+        # mixed: entries and rows that contribute nothing; a later duplicate key overwrites in place
+        rows += [["title"], ["author:", "x"], ["key:"], ["author:", " y "]][: rng.randint(2, 4)]
+        kinds.append("metadata-mixed")
     for _ in range(rng.choice([1, 2, 3, 3, 4, 5, 6])):
         r = rng.random()
         if r < 0.62:
@@ -245,6 +258,9 @@ def draw_filter(rng, pairs):
         return {"accept": [], "default": False}
     if r < 0.18:
         return {"accept": [[t, n, t == "TABLE"] for t, n in pairs], "default": False}
+    if r < 0.30:
+        # every non-table block accepted, tables at random
+        return {"accept": [[t, n, t != "TABLE" or rng.random() < 0.5] for t, n in pairs], "default": True}
     dflt = rng.random() < 0.3
     p = rng.choice([0.3, 0.5, 0.7])
     return {"accept": [[t, n, rng.random() < p] for t, n in pairs], "default": dflt}
@@ -348,6 +364,8 @@ def one_case(rng, out, seed, idx, tmp, ops, pend, model_ok):
 
     for e in U["events"]:
         out.count("frame:" + e[0])
+        if e[0] == "block" and e[1] == "METADATA" and e[2]["val"].get("metadata") == []:
+            out.count("frame:empty_metadata_block")
     for i, c in enumerate(rec_f):
         v = p(BlockType[c[0]], c[1])
         if i < len(U["events"]) and i < len(flat):
@@ -358,6 +376,9 @@ def one_case(rng, out, seed, idx, tmp, ops, pend, model_ok):
                 out.count("offered:transposed_table")
             if c[0] == "TABLE":
                 out.count("verdict:table:" + ("accept" if v else "reject"))
+            if c[0] == "METADATA":
+                out.count("verdict:metadata:" + ("accept" if v else "reject") +
+                          (":empty" if e[0] == "block" and e[2]["val"].get("metadata") == [] else ""))
     out.count("ending:" + (F["ending"] if isinstance(F["ending"], str) else next(iter(F["ending"]))))
 
     # --- oracle: calls + exactness, walking the frame
